@@ -18,7 +18,7 @@ REQUIRED_COUNTERS = ["a.compute", "a.update", "a.history>=10", "b.ldl", "b.ldl2"
 
 def plan(tier):
     if tier == "thorough":
-        return [{"variant": "plain", "workers": 16, "cases": 1500}]
+        return [{"variant": "plain", "workers": 16, "cases": 5000}]
     return [{"variant": "plain", "workers": 16, "cases": 90}]
 
 
